@@ -265,17 +265,17 @@ func (r *yieldRewriter) rewriteStmt(
 	case *ast.SwitchStmt:
 		// ↓↓ non-trival branch ↓↓
 		// &stmt.Init maybe ptr of typed nil
-		return r.rewriteSwitchStmt(
+		return r.endWithSwitch(isLast, r.rewriteSwitchStmt(
 			stmt, &stmt.Init, stmt.Tag, stmt.Body, &stmt.Switch, children,
-		)
+		))
 
 	case *ast.TypeSwitchStmt:
 		// ↓↓ non-trival branch ↓↓
 		trivalAssign := r.mustNoYield(stmt.Assign)
 		r.assert(trivalAssign, stmt.Assign, "yield not allowed")
-		return r.rewriteSwitchStmt(
+		return r.endWithSwitch(isLast, r.rewriteSwitchStmt(
 			stmt, &stmt.Init, stmt.Assign, stmt.Body, &stmt.Switch, children,
-		)
+		))
 
 	case *ast.ForStmt:
 		// ↓↓ non-trival branch ↓↓
@@ -474,6 +474,16 @@ func (r *yieldRewriter) rewriteSwitchStmt(
 	)
 	children = r.combineIfNecessary(children)
 	children.push(switchStmt, kindSwitch)
+	return children
+}
+
+// a yielding switch ending a block: like if,
+// MAKE SURE THE BLOCK END WITH RETURN STMT
+func (r *yieldRewriter) endWithSwitch(isLast bool, children *block) *block {
+	if _, kind := children.last(); isLast && kind == kindSwitch {
+		r.generateLastNormalIfNecessary(children)
+		return nil // no following
+	}
 	return children
 }
 
